@@ -106,7 +106,7 @@ def WFTriple {J : Type} (L : Lib J) (t : Triple J) : Prop :=
 raised SECoP errors carry a class name of errors.py, what it sends itself are event lines -/
 def DispFits {J σ : Type} (T : Tables) (L : Lib J) (d : Disp σ J) : Prop :=
   ∀ st t,
-    (∀ m ∈ (d st t).1.async, WFTriple L m ∧ (m.action = T.eventReply ∨ m.action = T.logEvent)) ∧
+    (∀ m ∈ (d st t).1.async, WFTriple L m ∧ m.action ∈ T.asyncActions) ∧
     match (d st t).1.res with
     | .ok r => WFTriple L r ∧ FitsOk T ⟨t.action, t.spec.getD []⟩ r.action (r.spec.getD [])
     | .secop cls => cls ∈ T.errorClasses
@@ -131,9 +131,9 @@ def classOf (data : Bytes) : Option Bytes :=
 def outParts (o : Bytes) : Parts := parts o.dropLast
 
 /-- may this emitted line be something else than a reply: a help text line, an event (`update`,
-`log`), or an error event (`error_update`, sent for a parameter in error state)? -/
-def isAsyncAction (T : Tables) (a : Bytes) : Bool :=
-  a == T.helpLineAction || a == T.eventReply || a == T.logEvent || a == T.errorPrefix ++ T.eventReply
+`log`), or an error event (`error_update`, the snapshot/update of a parameter in error state)?
+The list is generated from the source (`Generated.C07.asyncActions`). -/
+def isAsyncAction (T : Tables) (a : Bytes) : Bool := T.asyncActions.contains a
 
 /-- is this action certainly a reply action? -/
 def isReplyAction (T : Tables) (a : Bytes) : Bool := !isAsyncAction T a
